@@ -7,6 +7,8 @@ import (
 	"go/types"
 	"sort"
 	"strings"
+
+	"golang.org/x/tools/go/cfg"
 )
 
 // TAGMAP-SHARED (C29): the in-memory ingest (ingest/osm.go) and the compact build
@@ -24,7 +26,16 @@ import (
 //	(b) it is an argument of a module function whose body indexes the table with that
 //	    parameter (`ingest.KeyForOSMKey(tag.Key)`), or
 //	(c) fallback idiom: it initialises a local that the same function also assigns from a
-//	    table lookup (`key := tag.Key; if mapped, ok := table[tag.Key]; ok { key = mapped }`).
+//	    table lookup (`key := tag.Key; if mapped, ok := table[tag.Key]; ok { key = mapped }`),
+//	    and on the control-flow graph the lookup (index of the table, or call of a function of
+//	    kind (b), with the key) lies on EVERY path from that initialisation to a statement
+//	    that uses the local as a value. Uses inside branch conditions do not count; a lookup
+//	    that is itself guarded by a condition on the key's content
+//	    (`if !strings.Contains(key, ":") { lookup }`) therefore fails: the table contains keys
+//	    such as `fhrs:id`.
+//
+// A function of kind (b) must make its lookup on every path to a return that hands back the
+// parameter (no early `return key`).
 //
 // Anything else (the key stored, looked up in a string table, appended … unmapped) is a
 // violation. One more obligation, keyed by the table: all uses resolve to one and the same
@@ -101,6 +112,18 @@ func fTableFunc(c *Ctx, f *types.Func, argi int) []*types.Var {
 	}
 	deps := fDependents(info, decl.Body, params[argi])
 	var tables []*types.Var
+	isLookup := func(n ast.Node) bool {
+		found := false
+		ast.Inspect(n, func(m ast.Node) bool {
+			if ix, ok := m.(*ast.IndexExpr); ok {
+				if t := fPkgStringMap(info, ix.X); t != nil && fMentions(info, ix.Index, deps) {
+					found = true
+				}
+			}
+			return !found
+		})
+		return found
+	}
 	ast.Inspect(decl.Body, func(n ast.Node) bool {
 		if ix, ok := n.(*ast.IndexExpr); ok {
 			if t := fPkgStringMap(info, ix.X); t != nil && fMentions(info, ix.Index, deps) {
@@ -109,7 +132,188 @@ func fTableFunc(c *Ctx, f *types.Func, argi int) []*types.Var {
 		}
 		return true
 	})
+	if len(tables) == 0 {
+		return nil
+	}
+	// the lookup lies on every path to a return that hands back (something derived from) the parameter
+	g := newCFG(info, decl.Body)
+	if len(g.Blocks) == 0 {
+		return nil
+	}
+	type item struct {
+		b *cfg.Block
+		i int
+	}
+	seen := map[*cfg.Block]bool{g.Blocks[0]: true}
+	work := []item{{g.Blocks[0], 0}}
+	for len(work) > 0 {
+		it := work[0]
+		work = work[1:]
+		stopped := false
+		for i := it.i; i < len(it.b.Nodes); i++ {
+			n := it.b.Nodes[i]
+			if isLookup(n) {
+				stopped = true
+				break
+			}
+			if r, ok := n.(*ast.ReturnStmt); ok {
+				for _, e := range r.Results {
+					if fMentions(info, e, deps) {
+						return nil // the parameter is returned on a path that never consulted the table
+					}
+				}
+			}
+		}
+		if stopped {
+			continue
+		}
+		for _, sc := range it.b.Succs {
+			if !seen[sc] {
+				seen[sc] = true
+				work = append(work, item{sc, 0})
+			}
+		}
+	}
 	return tables
+}
+
+// fLookupOnEveryPath checks, on the CFG of the innermost function around the K-use, that every
+// path from the statement `def` (k := tag.Key) to a statement that uses k as a value passes a
+// lookup of the key in one of the tables. Uses of k inside branch conditions, on the left of
+// an assignment and inside the lookup itself are not "uses as a value". It returns a witness
+// path and the text of the use reached, or nil.
+func fLookupOnEveryPath(c *Ctx, info *types.Info, fd *ast.FuncDecl, chain []ast.Node, def ast.Node, k, tagObj types.Object, tables []*types.Var) ([]string, string) {
+	body := fd.Body
+	for _, n := range chain {
+		if fl, ok := n.(*ast.FuncLit); ok {
+			body = fl.Body
+		}
+	}
+	deps := fDependents(info, body, k, tagObj)
+	isTable := func(t *types.Var) bool {
+		for _, x := range tables {
+			if x == t {
+				return true
+			}
+		}
+		return false
+	}
+	// lookup expressions inside a node
+	hasLookup := func(n ast.Node) bool {
+		found := false
+		ast.Inspect(n, func(m ast.Node) bool {
+			switch x := m.(type) {
+			case *ast.FuncLit:
+				return false
+			case *ast.IndexExpr:
+				if t := fPkgStringMap(info, x.X); t != nil && isTable(t) && fMentions(info, x.Index, deps) {
+					found = true
+				}
+			case *ast.CallExpr:
+				if f := calleeFunc(info, x); f != nil {
+					for i, a := range x.Args {
+						if fMentions(info, a, deps) {
+							for _, t := range fTableFunc(c, f.Origin(), i) {
+								if isTable(t) {
+									found = true
+								}
+							}
+						}
+					}
+				}
+			}
+			return !found
+		})
+		return found
+	}
+	// does the statement use k as a value?
+	valueUse := func(n ast.Node) bool {
+		if _, isStmt := n.(ast.Stmt); !isStmt {
+			if _, isSpec := n.(*ast.ValueSpec); !isSpec {
+				return false // a bare expression in the CFG is a branch condition
+			}
+		}
+		lhs := map[*ast.Ident]bool{}
+		if as, ok := n.(*ast.AssignStmt); ok {
+			for _, l := range as.Lhs {
+				if id := fIdentOf(l); id != nil {
+					lhs[id] = true
+				}
+			}
+		}
+		found := false
+		ast.Inspect(n, func(m ast.Node) bool {
+			if _, isLit := m.(*ast.FuncLit); isLit {
+				return false
+			}
+			if id, ok := m.(*ast.Ident); ok && !lhs[id] && info.ObjectOf(id) == k {
+				found = true
+			}
+			return !found
+		})
+		return found
+	}
+	redefines := func(n ast.Node) bool {
+		as, ok := n.(*ast.AssignStmt)
+		if !ok {
+			return false
+		}
+		for i, l := range as.Lhs {
+			if id := fIdentOf(l); id != nil && info.ObjectOf(id) == k {
+				if len(as.Lhs) != len(as.Rhs) || !fMentions(info, as.Rhs[i], map[types.Object]bool{k: true}) {
+					return true
+				}
+			}
+		}
+		return false
+	}
+	g := newCFG(info, body)
+	loc, ok := findNode(g, def)
+	if !ok {
+		return []string{"the assignment was not found in the control-flow graph"}, "an unknown use"
+	}
+	type item struct {
+		b     *cfg.Block
+		i     int
+		trail []string
+	}
+	seen := map[*cfg.Block]bool{}
+	work := []item{{loc.b, loc.i + 1, nil}}
+	for len(work) > 0 {
+		it := work[0]
+		work = work[1:]
+		stopped := false
+		for i := it.i; i < len(it.b.Nodes); i++ {
+			n := it.b.Nodes[i]
+			if hasLookup(n) {
+				stopped = true
+				break
+			}
+			if valueUse(n) {
+				at := nodeText(c.Fset, n) + " at " + c.Position(n.Pos())
+				return append(append([]string(nil), it.trail...), "reaches "+c.Position(n.Pos())+" "+nodeText(c.Fset, n)), at
+			}
+			if redefines(n) || n == def {
+				stopped = true
+				break
+			}
+		}
+		if stopped {
+			continue
+		}
+		for _, sc := range it.b.Succs {
+			if seen[sc] {
+				continue
+			}
+			seen[sc] = true
+			t := it.trail
+			if len(sc.Nodes) > 0 {
+				t = append(append([]string(nil), it.trail...), fmt.Sprintf("%s (%s)", c.Position(sc.Nodes[0].Pos()), sc.Kind))
+			}
+			work = append(work, item{sc, 0, t})
+		}
+	}
+	return nil, ""
 }
 
 func runTagMapShared(c *Ctx) []Obligation {
@@ -188,7 +392,8 @@ func runTagMapShared(c *Ctx) []Obligation {
 				ob := Obligation{Key: fmt.Sprintf("%s#%d", name, ord), Pos: c.Position(se.Pos())}
 				what := fmt.Sprintf("OSM key %s", types.ExprString(se))
 				var tables []*types.Var
-				how := ""
+				how, bypass := "", ""
+				var bypassPath []string
 				switch x := parent.(type) {
 				case *ast.IndexExpr:
 					if x.Index == child {
@@ -227,11 +432,24 @@ func runTagMapShared(c *Ctx) []Obligation {
 						if k := info.ObjectOf(lhs); k != nil {
 							if ts := fFallbackTables(c, info, fd, k); len(ts) > 0 {
 								tables, how = ts, fmt.Sprintf("is only the fallback of %s, which the function also assigns from a lookup in the table %s.%s", lhs.Name, ts[0].Pkg().Name(), ts[0].Name())
+								// … and the lookup is made on every path from here to a use of the local
+								if w, sink := fLookupOnEveryPath(c, info, fd, chain, parent, k, fBaseObj(info, se.X), ts); w != nil {
+									bypass = fmt.Sprintf("%s is initialised from the raw OSM key and reaches %s on a path that skips the lookup in %s.%s (the lookup is conditional): keys the table maps are stored unmapped on that path",
+										lhs.Name, sink, ts[0].Pkg().Name(), ts[0].Name())
+									bypassPath = w
+								} else {
+									how += "; the lookup lies on every path from this assignment to a use of " + lhs.Name
+								}
 							}
 						}
 					}
 				}
-				if len(tables) > 0 {
+				if bypass != "" {
+					ob.Status, ob.Detail, ob.Path = Violation, what+": "+bypass, bypassPath
+					for _, t := range tables {
+						uses = append(uses, tableUse{t, ob.Pos, name})
+					}
+				} else if len(tables) > 0 {
 					ob.Status, ob.Detail = OK, what+" "+how
 					for _, t := range tables {
 						uses = append(uses, tableUse{t, ob.Pos, name})
